@@ -11,8 +11,9 @@ T  (a) translators re-run on every check: c2lean (mju_isBad, bitwise validation 
        semantics, with the generated mju_isBad on Float) and to harness/c/c30_check.c (the real mju_isBad / mj_checkPos /
        mj_checkVel / mj_checkAcc on a real model): warning number, lastinfo, reset / forward observed, vector bits.
 S  injection oracle on the real engine (harness/c/engine_repl.c): NaN / ±Inf / ±1e11 at indices of qpos, qvel, act,
-   ctrl, qfrc_applied, xfrc_applied of generated models, then mj_step: state finite afterwards, warning counters,
-   state bitwise equal to "reset then step" (resp. "zero ctrl then step"), autoreset on and off.
+   ctrl, qfrc_applied, xfrc_applied of generated models (incl. disabled actuator groups / mjDSBL_ACTUATION), then
+   mj_step: state finite afterwards (and, if not, after a second step), warning counters, state bitwise equal to
+   "reset then step" (resp. "zero ctrl then step" for Euler / RK4), autoreset on and off.
 """
 import math
 import os
@@ -25,7 +26,7 @@ from gen.models import ModelGen
 META = {
     "technique": "c2lean-generated mju_isBad (regenerated each run, bitwise translation validation on NaN/Inf/boundary bit patterns) + value-class model of the IEEE comparisons; translator-generated control skeletons of mj_checkPos/Vel/Acc and mj_step (translate/skeleton.py) given an atom semantics in Lean and PROVED to compute a small decision-logic model (loop induction over the scanned index list, simp over the generated program); Lean 4 proofs over the reals / over arbitrary carriers; differential of the executed generated skeleton against the real check functions on a real mjModel; injection oracle on mj_step through the shared engine REPL",
     "text": "Proved for all inputs: the generated mju_isBad returns 1 exactly when |x| > mjMAXVAL = 1e10 (reals) and the value-class model of the C expression is additionally true for NaN and both infinities; running the generated skeleton of mj_checkPos / mj_checkVel / mj_checkAcc under the stated atom semantics terminates normally and equals the decision logic: the first bad entry in scan order (every index for positions; every index, or the awake dofs when sleeping filters, for velocities / accelerations) triggers mj_warning, then mj_resetData unless mjDSBL_AUTORESET, then number++ / lastinfo = index, then (accelerations, autoreset) mj_forward; so a bad entry at ANY scanned index is caught, the counter ends at old+2 without autoreset and at 1 with autoreset (the reset clears the warning record first), the data slice is the reset value, and a clean vector is left untouched; the generated mj_step runs checkPos, checkVel, forward, checkAcc in this order. Sampled on the real engine: injection of NaN/±Inf/±1e11 at indices of qpos, qvel, act, ctrl, qfrc_applied, xfrc_applied followed by mj_step.",
-    "note": "The statement 'after mj_step every state component is finite' is NOT proved (it would need models of mj_forward and of the integrators): post_step_finite_partial only bounds the explicit Euler update of a scalar joint over the reals when no check fires; the engine oracle samples mj_step itself. NaN/Inf are not reals: their treatment by mju_isBad is a hand model of the IEEE comparison rules tied to the real function by the bitwise differential only. The atom semantics (what `i++`, `mj_resetData`, ... mean on the modelled slice) is hand-written; the control structure is generated. mj_resetData is modelled only on the slice (checked vector, its warning record, ghost call counters). With autoreset the warning counter does not 'increase' when it was already >= 1: the reset clears it and it is then set to 1 (modelled and proved as coded; the oracle requires counter >= 1 after a reset and old+2 without autoreset). Finding reported by the oracle (key c30:nonfinite-act-survives-step): act is not examined by any check; a non-finite activation of an actuator that produces no force (disabled group / mjDSBL_ACTUATION) is carried through mj_step.",
+    "note": "The statement 'after mj_step every state component is finite' is NOT proved (it would need models of mj_forward and of the integrators): post_step_finite_partial only bounds the explicit Euler update of a scalar joint over the reals when no check fires; the engine oracle samples mj_step itself. NaN/Inf are not reals: their treatment by mju_isBad is a hand model of the IEEE comparison rules tied to the real function by the bitwise differential only. The atom semantics (what `i++`, `mj_resetData`, ... mean on the modelled slice) is hand-written; the control structure is generated. mj_resetData is modelled only on the slice (checked vector, its warning record, ghost call counters). With autoreset the warning counter does not 'increase' when it was already >= 1: the reset clears it and it is then set to 1 (modelled and proved as coded; the oracle requires counter >= 1 after a reset and old+2 without autoreset). FINDINGS reported by the oracle (the literal first sentence of the property does not hold on the real code; keys c30:nonfinite-after-step:<field>, c30:nonfinite-after-two-steps:<field>): the checks run only at the start of mj_step and after the first mj_forward, so (i) with RK4 a huge finite force / a non-finite activation behind a force clamp blows up in the later stages and the step returns NaN (caught by the next step), (ii) with the implicit integrators mjd_actuator_vel reads the raw d->ctrl, so a NaN control poisons the step although mjWARN_BADCTRL zeroed the local copy, (iii) act is examined by no check: a non-finite activation of an actuator that produces no force (disabled group / mjDSBL_ACTUATION) is carried along forever.",
 }
 
 P = "MjProof.C30."
@@ -207,7 +208,7 @@ def fmtv(v):
 def engine_oracle(ctx, exe, nmodels, per_field):
     """returns statistics; reports failures through ctx.oracle_failure"""
     stats = {"models": 0, "injections": 0, "caught": {"qpos": 0, "qvel": 0, "qacc": 0, "ctrl": 0}, "resets_verified": 0,
-             "benign_no_warning": 0, "by_field": {}, "autoreset_off": 0}
+             "benign_no_warning": 0, "by_field": {}, "autoreset_off": 0, "nonfinite_after_one_step": {}, "nonfinite_after_two_steps": {}}
     failures = {}
 
     def fail(key, what, replay):
@@ -275,6 +276,11 @@ def engine_oracle(ctx, exe, nmodels, per_field):
                 for g in STATE_FIELDS:
                     R.cmd("get 0 " + g, ("after", ci, g))
                 R.cmd("scalar 0 time", ("after", ci, "time"))
+                if autoreset:
+                    # a second step: is a value that escaped the first step at least caught by the next one?
+                    R.cmd("step 0", ("step2", ci))
+                    for g in STATE_FIELDS:
+                        R.cmd("get 0 " + g, ("after2", ci, g))
             rc, out, err = R.run()
             replay_base = {"model": text, "state": st, "autoreset": autoreset, "variant": variant,
                            "how": "feed `model` + description + the listed commands to harness/c/engine_repl.c"}
@@ -297,6 +303,11 @@ def engine_oracle(ctx, exe, nmodels, per_field):
                 ctx.count((mi, autoreset, f, i, v))
                 if not autoreset:
                     stats["autoreset_off"] += 1
+                if res.get(("step", ci), "").startswith("error") and not autoreset:
+                    # autoreset disabled by the user: the bad value is propagated by design; an engine error raised on
+                    # the garbage state (e.g. a rank-deficient Hessian) is a consequence, not a finding
+                    stats["engine_errors_with_autoreset_off"] = stats.get("engine_errors_with_autoreset_off", 0) + 1
+                    continue
                 if res.get(("step", ci), "").startswith("error"):
                     fail("c30:engine-error", "mj_step raised an engine error after injection: " + res[("step", ci)][:200],
                          dict(replay_base, inject=[f, i, v]))
@@ -307,14 +318,26 @@ def engine_oracle(ctx, exe, nmodels, per_field):
                 rp = dict(replay_base, inject={"field": f, "index": i, "value": v},
                           commands=["resetdata 0"] + [b % 0 for b in base] + ["setat 0 %s %d %s" % (f, i, v), "step 0", "num 0 qpos", "num 0 qvel", "num 0 act"],
                           warnings_before=w0, warnings_after=w1, state_after=after)
-                nonfinite = [g for g in STATE_FIELDS if "nan" in after[g].split() or any(t in ("7ff0000000000000", "fff0000000000000") for t in after[g].split())]
+                def nonfin(d):
+                    return [g for g in STATE_FIELDS if "nan" in d[g].split() or any(t in ("7ff0000000000000", "fff0000000000000") for t in d[g].split())]
+                nonfinite = nonfin(after)
+                integ = mdl.options["integrator"]
                 was_reset = all(after[g] == ref1[g] for g in STATE_FIELDS + ("time",))
                 caught = [w for w in (W_QPOS, W_QVEL, W_QACC) if w1[w] > (0 if autoreset else w0[w])]
                 if autoreset:
                     # A: the state is finite after the step
                     if nonfinite:
-                        key = "c30:nonfinite-act-survives-step" if (nonfinite == ["act"] and f == "act") else "c30:nonfinite-state-after-step:" + f
-                        fail(key, "after injecting %s into %s[%d] and calling mj_step, %s contains a non-finite value (variant %s)" % (v, f, i, "/".join(nonfinite), variant), rp)
+                        stats["nonfinite_after_one_step"][f + ":" + integ] = stats["nonfinite_after_one_step"].get(f + ":" + integ, 0) + 1
+                        fail("c30:nonfinite-after-step:" + f,
+                             "after injecting %s into %s[%d] and calling mj_step ONCE, %s contains a non-finite value (integrator %s, variant %s, warnings %s)"
+                             % (v, f, i, "/".join(nonfinite), integ, variant, [w1[w] for w in (W_QPOS, W_QVEL, W_QACC, W_CTRL)]), rp)
+                        after2 = {g: res[("after2", ci, g)] for g in STATE_FIELDS}
+                        nf2 = nonfin(after2) if not res.get(("step2", ci), "").startswith("error") else ["<engine error>"]
+                        if nf2:
+                            stats["nonfinite_after_two_steps"][f + ":" + integ] = stats["nonfinite_after_two_steps"].get(f + ":" + integ, 0) + 1
+                            fail("c30:nonfinite-after-two-steps:" + f,
+                                 "after injecting %s into %s[%d] and calling mj_step TWICE, %s still contains a non-finite value (integrator %s, variant %s): never caught"
+                                 % (v, f, i, "/".join(nf2), integ, variant), dict(rp, state_after_second_step=after2))
                         continue
                     # B: bad positions / velocities are caught by their own check
                     if f in ("qpos", "qvel"):
